@@ -1,0 +1,337 @@
+//go:build verif
+
+package stackage
+
+// Contracts for the deductive verifier in /verif (gvc). Comment-only file:
+// it declares nothing, so the package is identical with or without the tag.
+
+//@ func (*cfgFlag).toggle
+//@ tags C18
+//@ requires r != nil && onebit16(x)
+//@ ensures[C18:toggle] Cell_cfgFlag[r] == old(Cell_cfgFlag[r]) ^ x
+//@ modifies Cell_cfgFlag[r]
+
+//@ func (stack).index
+//@ tags C01
+//@ safety C08
+//@ requires wfs(r)
+//@ let L := len(r) - 1
+//@ let t := slotOf(i, L, F_nodeConfig_opt[cfgp_of(r[0])])
+//@ ensures[C01,C08:index.miss] t == 0 ==> slice == nil && !ok
+//@ ensures[C01,C08:index.hit] t != 0 ==> slice == r[t] && idx == t && ok == (r[t] != nil)
+//@ modifies nothing
+
+//@ func (Stack).Len
+//@ tags C01
+//@ requires r == nil || wf(r)
+//@ ensures[C01:len] r != nil ==> i == ulen(r)
+//@ ensures[C17:len.nil] r == nil ==> i == 0
+//@ modifies nothing
+
+//@ func (*stack).remove
+//@ tags C01
+//@ requires wf(r)
+//@ let L := ulen(r)
+//@ let t := slotOf(idx, L, F_nodeConfig_opt[cfgOf(r)])
+//@ ensures[C01,C08:remove.miss] t == 0 ==> slice == nil && !ok && hdr(r) == old(hdr(r))
+//@ ensures[C01:remove.hit.len] t != 0 && old(slot(r, t)) != nil ==> ok && slice == old(slot(r, t)) && ulen(r) == L - 1
+//@ ensures[C01:remove.hit.before] t != 0 && old(slot(r, t)) != nil ==> forall k :: 0 <= k && k < t ==> slot(r, k) == old(slot(r, k))
+//@ ensures[C01:remove.hit.after] t != 0 && old(slot(r, t)) != nil ==> forall k :: t <= k && k < L ==> slot(r, k) == old(slot(r, k + 1))
+//@ ensures[C01,C08:remove.nilslot] t != 0 && old(slot(r, t)) == nil ==> slice == nil && !ok && hdr(r) == old(hdr(r))
+//@ ensures[C01:remove.wf] wf(r) && cfgOf(r) == old(cfgOf(r)) && off(hdr(r)) == 0 && (arr(hdr(r)) == old(arr(hdr(r))) || fresh(arr(hdr(r))))
+//@ modifies Cell_stack[r], Mem_Val[fresh], F_nodeConfig_ldr[cfgOf(r)], G_held
+//@ loop 1 invariant 1 <= i && i <= len(hdr(r)) && hdr(r) == old(hdr(r))
+//@ loop 1 invariant len(contents) == (i - 1) - ite(index < i, 1, 0)
+//@ loop 1 invariant forall q :: off(contents) <= q && q < off(contents) + len(contents) ==> cell(contents, q) == old(slot(r, 1 + (q - off(contents)) + ite((q - off(contents)) + 1 >= index, 1, 0)))
+//@ loop 1 invariant arr(contents) == 0 || arr(contents) >= pre(alloc)
+//@ loop 1 invariant forall a :: 0 <= a && a < pre(alloc) ==> Mem_Val[a] == pre(Mem_Val[a])
+
+// ---------------------------------------------------------------------
+// assumed: reflect-based alias converters (audited by catalogue, C12)
+
+//@ func stackTypeAliasConverter
+//@ assumed reflect-based; classification audited against the real function over a value catalogue (C12)
+//@ ensures converted == isStackLike(u)
+//@ ensures S == stackOf(u)
+//@ ensures S != nil ==> wf(S)
+//@ modifies nothing
+
+//@ func conditionTypeAliasConverter
+//@ assumed reflect-based; classification audited against the real function over a value catalogue (C12)
+//@ ensures converted == isCondLike(u)
+//@ ensures C == condOf(u)
+//@ modifies nothing
+
+// ---------------------------------------------------------------------
+
+//@ func (*stack).canPushNester
+//@ tags C13
+//@ requires wf(r)
+//@ ensures[C13:canPushNester] can == accept(bit(F_nodeConfig_opt[cfgOf(r)], 0x0100), x)
+//@ modifies nothing
+
+//@ func (*stack).genericAppend
+//@ tags C01,C03,C13
+//@ requires wf(r) && okslice(x, alloc) && arr(x) != arr(hdr(r))
+//@ let nn := bit(F_nodeConfig_opt[cfgOf(r)], 0x0100)
+//@ let cp := F_nodeConfig_cap[cfgOf(r)]
+//@ let len0 := len(hdr(r))
+//@ let n := len(x)
+//@ ensures[C01,C03,C13:ga.len] len(hdr(r)) == plen(old(Mem_Val), x, nn, cp, len0, n)
+//@ ensures[C01,C03,C13:ga.stored] forall j :: 0 <= j && j < n && stored(old(Mem_Val), x, nn, cp, len0, j) ==> slot(r, plen(old(Mem_Val), x, nn, cp, len0, j)) == old(x[j])
+//@ ensures[C01,C03:ga.kept] forall k :: 0 <= k && k < len0 ==> slot(r, k) == old(slot(r, k))
+//@ ensures[C01:ga.plain] cp == 0 && !nn ==> len(hdr(r)) == len0 + n && (forall j :: 0 <= j && j < n ==> slot(r, len0 + j) == old(x[j]))
+//@ ensures[C03:ga.wf] wf(r) && cfgOf(r) == old(cfgOf(r))
+//@ ensures[:ga.own] arr(hdr(r)) == old(arr(hdr(r))) || fresh(arr(hdr(r)))
+//@ modifies Cell_stack[r], Mem_Val[old(arr(hdr(r)))], Mem_Val[fresh]
+//@ loop 1 invariant 0 <= i && i <= n && wf(r) && cfgOf(r) == old(cfgOf(r))
+//@ loop 1 invariant len(hdr(r)) == plen(old(Mem_Val), x, nn, cp, len0, i) && len(hdr(r)) >= len0
+//@ loop 1 invariant cp == 0 && !nn ==> len(hdr(r)) == len0 + i
+//@ loop 1 invariant arr(hdr(r)) == old(arr(hdr(r))) || fresh(arr(hdr(r)))
+//@ loop 1 invariant memSameExcept(Mem_Val, old(Mem_Val), old(arr(hdr(r))), old(alloc))
+//@ loop 1 invariant hdrsSameExcept(Cell_stack, old(Cell_stack), r, old(alloc))
+//@ loop 1 invariant forall q :: 0 <= q && q < len0 ==> cell(hdr(r), q) == old(cell(hdr(r), q))
+//@ loop 1 invariant forall j :: 0 <= j && j < i ==> plen(old(Mem_Val), x, nn, cp, len0, j) <= len(hdr(r)) && (stored(old(Mem_Val), x, nn, cp, len0, j) ==> plen(old(Mem_Val), x, nn, cp, len0, j) < len(hdr(r)) && plen(old(Mem_Val), x, nn, cp, len0, j) >= len0)
+//@ loop 1 invariant forall j :: 0 <= j && j < i && stored(old(Mem_Val), x, nn, cp, len0, j) ==> cell(hdr(r), plen(old(Mem_Val), x, nn, cp, len0, j)) == old(x[j])
+//@ loop 1 invariant cp == 0 && !nn ==> forall j :: 0 <= j && j < i ==> cell(hdr(r), len0 + j) == old(x[j])
+
+// ---------------------------------------------------------------------
+// exported content operations (C01 ordered-list semantics, C08 index safety)
+
+//@ func (Stack).Index
+//@ tags C01
+//@ safety C08,C17
+//@ requires r == nil || wf(r)
+//@ let L := ulen(r)
+//@ let t := slotOf(idx, L, F_nodeConfig_opt[cfgOf(r)])
+//@ ensures[C01,C08:Index.miss] r != nil && t == 0 ==> slice == nil && !ok
+//@ ensures[C01,C08:Index.hit] r != nil && t != 0 ==> slice == slot(r, t) && ok == (slot(r, t) != nil)
+//@ ensures[C17:Index.nil] r == nil ==> slice == nil && !ok
+//@ modifies nothing
+
+//@ func (Stack).Remove
+//@ tags C01
+//@ safety C08,C17
+//@ requires r == nil || wf(r)
+//@ let L := ulen(r)
+//@ let o := F_nodeConfig_opt[cfgOf(r)]
+//@ let t := slotOf(idx, L, o)
+//@ let live := r != nil && !bit(o, 0x0080)
+//@ ensures[C01,C08:Remove.miss] live && t == 0 ==> slice == nil && !ok && hdr(r) == old(hdr(r))
+//@ ensures[C01:Remove.hit] live && t != 0 && old(slot(r, t)) != nil ==> ok && slice == old(slot(r, t)) && ulen(r) == L - 1
+//@ ensures[C01:Remove.before] live && t != 0 && old(slot(r, t)) != nil ==> forall k :: 0 <= k && k < t ==> slot(r, k) == old(slot(r, k))
+//@ ensures[C01:Remove.after] live && t != 0 && old(slot(r, t)) != nil ==> forall k :: t <= k && k < L ==> slot(r, k) == old(slot(r, k + 1))
+//@ ensures[C08:Remove.nilslot] live && t != 0 && old(slot(r, t)) == nil ==> !ok && hdr(r) == old(hdr(r))
+//@ ensures[C09:Remove.ro] r != nil && bit(o, 0x0080) ==> slice == nil && !ok && hdr(r) == old(hdr(r))
+//@ ensures[C17:Remove.nil] r == nil ==> slice == nil && !ok
+//@ ensures[C01,C08:Remove.wf] r != nil ==> wf(r) && cfgOf(r) == old(cfgOf(r))
+//@ modifies Cell_stack[r], Mem_Val[fresh], F_nodeConfig_ldr[cfgOf(r)], G_held
+
+//@ func (Stack).Replace
+//@ tags C01
+//@ safety C08,C17
+//@ requires r == nil || wf(r)
+//@ let L := ulen(r)
+//@ let o := F_nodeConfig_opt[cfgOf(r)]
+//@ let cs := ite(0 <= idx && idx < L, idx + 1, slotOf(idx, L, o))
+//@ ensures[C01:Replace.hit] r != nil && !bit(o, 0x0080) && x != nil && 0 <= idx && idx < L ==> ok && slot(r, idx + 1) == x
+//@ ensures[C01,C08:Replace.others] r != nil ==> hdr(r) == old(hdr(r)) && (forall k :: 0 <= k && k <= L && !(ok && cs != 0 && k == cs) ==> slot(r, k) == old(slot(r, k)))
+//@ ensures[C08:Replace.miss] r != nil && cs == 0 ==> !ok
+//@ ensures[C08:Replace.translated] r != nil && ok ==> cs != 0 && slot(r, cs) == x
+//@ ensures[C09:Replace.ro] r != nil && bit(o, 0x0080) ==> !ok
+//@ ensures[C17:Replace.nil] r == nil ==> !ok
+//@ modifies Mem_Val[arr(hdr(r))]
+
+//@ func (Stack).Swap
+//@ tags C01
+//@ safety C08,C17
+//@ requires r == nil || wf(r)
+//@ let L := ulen(r)
+//@ let o := F_nodeConfig_opt[cfgOf(r)]
+//@ let ti := ite(0 <= i && i < L, i + 1, slotOf(i, L, o))
+//@ let tj := ite(0 <= j && j < L, j + 1, slotOf(j, L, o))
+//@ ensures[C01:Swap.hit] r != nil && !bit(o, 0x0080) && 0 <= i && i < L && 0 <= j && j < L ==> slot(r, i + 1) == old(slot(r, j + 1)) && slot(r, j + 1) == old(slot(r, i + 1))
+//@ ensures[C01,C08:Swap.others] r != nil ==> hdr(r) == old(hdr(r)) && (forall k :: 0 <= k && k <= L && !(ti != 0 && tj != 0 && (k == ti || k == tj)) ==> slot(r, k) == old(slot(r, k)))
+//@ ensures[C08:Swap.translated] r != nil && ti != 0 && tj != 0 ==> (slot(r, ti) == old(slot(r, tj)) && slot(r, tj) == old(slot(r, ti))) || (slot(r, ti) == old(slot(r, ti)) && slot(r, tj) == old(slot(r, tj)))
+//@ ensures[C09:Swap.ro] r != nil && bit(o, 0x0080) ==> forall k :: 0 <= k && k <= L ==> slot(r, k) == old(slot(r, k))
+//@ modifies Mem_Val[arr(hdr(r))], F_nodeConfig_ldr[cfgOf(r)], G_held
+
+//@ func (Stack).Insert
+//@ tags C01,C03
+//@ safety C08,C17
+//@ requires r == nil || wf(r)
+//@ let L := ulen(r)
+//@ let o := F_nodeConfig_opt[cfgOf(r)]
+//@ let cp := F_nodeConfig_cap[cfgOf(r)]
+//@ let p := ite(left <= 0, 0, ite(left >= L, L, left))
+//@ let go := r != nil && !bit(o, 0x0080) && x != nil && !(cp != 0 && L + 1 >= cp)
+//@ ensures[C01:Insert.ok] go ==> ok && ulen(r) == L + 1 && slot(r, p + 1) == x
+//@ ensures[C01:Insert.before] go ==> forall k :: 0 <= k && k <= p ==> slot(r, k) == old(slot(r, k))
+//@ ensures[C01:Insert.after] go ==> forall k :: p + 1 <= k && k <= L ==> slot(r, k + 1) == old(slot(r, k))
+//@ ensures[C03,C08,C09:Insert.refused] r != nil && !go ==> !ok && hdr(r) == old(hdr(r)) && (forall k :: 0 <= k && k <= L ==> slot(r, k) == old(slot(r, k)))
+//@ ensures[C17:Insert.nil] r == nil ==> !ok
+//@ ensures[C01,C03,C08:Insert.wf] r != nil ==> wf(r) && cfgOf(r) == old(cfgOf(r))
+//@ modifies Cell_stack[r], Mem_Val[arr(hdr(r))], Mem_Val[fresh], F_nodeConfig_ldr[cfgOf(r)], G_held
+
+//@ func (Stack).Pop
+//@ tags C01
+//@ safety C08,C17
+//@ requires r == nil || wf(r)
+//@ let L := ulen(r)
+//@ let o := F_nodeConfig_opt[cfgOf(r)]
+//@ let fifo := F_nodeConfig_ord[cfgOf(r)]
+//@ let go := r != nil && !bit(o, 0x0080) && L > 0
+//@ ensures[C01:Pop.lifo] go && !fifo ==> popped == old(slot(r, L)) && ulen(r) == L - 1 && (forall k :: 0 <= k && k < L ==> slot(r, k) == old(slot(r, k)))
+//@ ensures[C01:Pop.fifo] go && fifo ==> popped == old(slot(r, 1)) && ulen(r) == L - 1 && slot(r, 0) == old(slot(r, 0)) && (forall k :: 1 <= k && k < L ==> slot(r, k) == old(slot(r, k + 1)))
+//@ ensures[C01:Pop.ok] go ==> ok == (popped != nil)
+//@ ensures[C01,C09,C17:Pop.none] !go ==> popped == nil && !ok && (r != nil ==> hdr(r) == old(hdr(r)) && (forall k :: 0 <= k && k <= L ==> slot(r, k) == old(slot(r, k))))
+//@ ensures[C01,C08:Pop.wf] r != nil ==> wf(r) && cfgOf(r) == old(cfgOf(r))
+//@ modifies Cell_stack[r], Mem_Val[arr(hdr(r))], F_nodeConfig_ldr[cfgOf(r)], G_held
+
+//@ func (*stack).reverse
+//@ tags C01
+//@ requires wf(r)
+//@ let n := len(hdr(r))
+//@ ensures[C01:reverse.elems] forall k :: 1 <= k && k < n ==> slot(r, k) == old(slot(r, n - k))
+//@ ensures[C01:reverse.hdr] hdr(r) == old(hdr(r)) && slot(r, 0) == old(slot(r, 0))
+//@ modifies Mem_Val[arr(hdr(r))], F_nodeConfig_ldr[cfgOf(r)], G_held
+//@ loop 1 invariant 1 <= i && i + j == n && j <= n - 1 && hdr(r) == old(hdr(r))
+//@ loop 1 invariant memSameExcept(Mem_Val, old(Mem_Val), arr(hdr(r)), old(alloc))
+//@ loop 1 invariant forall q :: 0 <= q && q < n && (q < i || q > j) && q != 0 ==> cell(hdr(r), q) == old(cell(hdr(r), n - q))
+//@ loop 1 invariant forall q :: (i <= q && q <= j) || q == 0 ==> cell(hdr(r), q) == old(cell(hdr(r), q))
+
+//@ func (Stack).Reverse
+//@ tags C01
+//@ safety C08,C17
+//@ requires r == nil || wf(r)
+//@ let L := ulen(r)
+//@ let o := F_nodeConfig_opt[cfgOf(r)]
+//@ ensures[C01:Reverse.elems] r != nil && !bit(o, 0x0080) ==> forall k :: 1 <= k && k <= L ==> slot(r, k) == old(slot(r, L + 1 - k))
+//@ ensures[C09:Reverse.ro] r != nil && bit(o, 0x0080) ==> forall k :: 0 <= k && k <= L ==> slot(r, k) == old(slot(r, k))
+//@ ensures[C01:Reverse.hdr] r != nil ==> hdr(r) == old(hdr(r)) && slot(r, 0) == old(slot(r, 0))
+//@ modifies Mem_Val[arr(hdr(r))], F_nodeConfig_ldr[cfgOf(r)], G_held
+
+//@ func (*stack).reset
+//@ tags C01,C17
+//@ requires wf(r)
+//@ ensures[C01,C17:reset.empty] ulen(r) == 0
+//@ ensures[C01,C17:reset.cfg] wf(r) && cfgOf(r) == old(cfgOf(r))
+//@ ensures[:reset.own] arr(hdr(r)) == old(arr(hdr(r))) || fresh(arr(hdr(r)))
+//@ modifies Cell_stack[r], Mem_Val[fresh], F_nodeConfig_ldr[cfgOf(r)], G_held
+//@ loop 1 invariant wf(r) && cfgOf(r) == old(cfgOf(r)) && 0 <= i && i <= old(ulen(r))
+//@ loop 1 invariant arr(hdr(r)) == old(arr(hdr(r))) || fresh(arr(hdr(r)))
+//@ loop 1 invariant hdrsSameExcept(Cell_stack, old(Cell_stack), r, old(alloc))
+//@ loop 1 invariant memSameExcept(Mem_Val, old(Mem_Val), 0, old(alloc))
+
+//@ func (Stack).Reset
+//@ tags C01,C17
+//@ safety C08,C17
+//@ requires r == nil || wf(r)
+//@ let o := F_nodeConfig_opt[cfgOf(r)]
+//@ ensures[C01,C17:Reset.empty] r != nil && !bit(o, 0x0080) ==> ulen(r) == 0
+//@ ensures[C09:Reset.ro] r != nil && bit(o, 0x0080) ==> hdr(r) == old(hdr(r))
+//@ ensures[C01,C17:Reset.cfg] r != nil ==> wf(r) && cfgOf(r) == old(cfgOf(r))
+//@ modifies Cell_stack[r], Mem_Val[fresh], F_nodeConfig_ldr[cfgOf(r)], G_held
+
+//@ func (*stack).push
+//@ tags C01,C03,C13
+//@ requires wf(r) && okslice(x, alloc) && arr(x) != arr(hdr(r))
+//@ requires F_nodeConfig_ppf[cfgOf(r)] == nil
+//@ let nn := bit(F_nodeConfig_opt[cfgOf(r)], 0x0100)
+//@ let cp := F_nodeConfig_cap[cfgOf(r)]
+//@ let len0 := len(hdr(r))
+//@ let n := len(x)
+//@ ensures[C01,C03,C13:push.len] len(hdr(r)) == plen(old(Mem_Val), x, nn, cp, len0, n)
+//@ ensures[C01,C03,C13:push.stored] forall j :: 0 <= j && j < n && stored(old(Mem_Val), x, nn, cp, len0, j) ==> slot(r, plen(old(Mem_Val), x, nn, cp, len0, j)) == old(x[j])
+//@ ensures[C01,C03:push.kept] forall k :: 0 <= k && k < len0 ==> slot(r, k) == old(slot(r, k))
+//@ ensures[C01:push.plain] cp == 0 && !nn ==> len(hdr(r)) == len0 + n && (forall j :: 0 <= j && j < n ==> slot(r, len0 + j) == old(x[j]))
+//@ ensures[C03:push.wf] wf(r) && cfgOf(r) == old(cfgOf(r))
+//@ ensures[:push.own] arr(hdr(r)) == old(arr(hdr(r))) || fresh(arr(hdr(r)))
+//@ modifies Cell_stack[r], Mem_Val[old(arr(hdr(r)))], Mem_Val[fresh], F_nodeConfig_ldr[cfgOf(r)], G_held
+
+//@ func (Stack).Push
+//@ tags C01,C03,C13
+//@ safety C08,C17
+//@ requires r == nil || wf(r)
+//@ requires okslice(y, alloc) && (r != nil ==> arr(y) != arr(hdr(r)))
+//@ requires r != nil ==> F_nodeConfig_ppf[cfgOf(r)] == nil
+//@ let o := F_nodeConfig_opt[cfgOf(r)]
+//@ let nn := bit(o, 0x0100)
+//@ let cp := F_nodeConfig_cap[cfgOf(r)]
+//@ let len0 := len(hdr(r))
+//@ let n := len(y)
+//@ let go := r != nil && !bit(o, 0x0080)
+//@ ensures[C01:Push.plain] go && cp == 0 && !nn ==> len(hdr(r)) == len0 + n && (forall j :: 0 <= j && j < n ==> slot(r, len0 + j) == old(y[j]))
+//@ ensures[C03,C13:Push.len] go ==> len(hdr(r)) == plen(old(Mem_Val), y, nn, cp, len0, n)
+//@ ensures[C03,C13:Push.stored] go ==> forall j :: 0 <= j && j < n && stored(old(Mem_Val), y, nn, cp, len0, j) ==> slot(r, plen(old(Mem_Val), y, nn, cp, len0, j)) == old(y[j])
+//@ ensures[C01,C03:Push.kept] r != nil ==> forall k :: 0 <= k && k < len0 ==> slot(r, k) == old(slot(r, k))
+//@ ensures[C09:Push.ro] r != nil && bit(o, 0x0080) ==> hdr(r) == old(hdr(r))
+//@ ensures[C01,C03:Push.wf] r != nil ==> wf(r) && cfgOf(r) == old(cfgOf(r))
+//@ ensures[:Push.ret] result == r
+//@ modifies Cell_stack[r], Mem_Val[old(arr(hdr(r)))], Mem_Val[fresh], F_nodeConfig_ldr[cfgOf(r)], G_held
+
+//@ func (Stack).IsEmpty
+//@ tags C01
+//@ safety C08,C17
+//@ requires r == nil || wf(r)
+//@ ensures[C01,C17:IsEmpty] result == (r == nil || ulen(r) == 0)
+//@ modifies nothing
+
+//@ func (Stack).Front
+//@ tags C01
+//@ safety C08,C17
+//@ requires r == nil || wf(r)
+//@ requires r != nil ==> !bit(F_nodeConfig_opt[cfgOf(r)], 0x0010) && !bit(F_nodeConfig_opt[cfgOf(r)], 0x0020)
+//@ let L := ulen(r)
+//@ let fifo := F_nodeConfig_ord[cfgOf(r)]
+//@ ensures[C01:Front.found] r != nil && ok ==> exists k :: 1 <= k && k <= L && slice == slot(r, k) && slice != nil && (forall m :: 1 <= m && m <= L && ite(fifo, m < k, m > k) ==> slot(r, m) == nil)
+//@ ensures[C01:Front.none] r != nil && !ok ==> forall m :: 1 <= m && m <= L ==> slot(r, m) == nil
+//@ ensures[C17:Front.nil] r == nil ==> slice == nil && !ok
+//@ modifies nothing
+//@ loop 1 invariant 0 <= i && i <= L && !ok && (forall m :: 1 <= m && m <= i ==> slot(r, m) == nil)
+//@ loop 2 invariant 0 <= i && i <= L && !ok && (forall m :: i < m && m <= L ==> slot(r, m) == nil)
+
+//@ func (Stack).Back
+//@ tags C01
+//@ safety C08,C17
+//@ requires r == nil || wf(r)
+//@ requires r != nil ==> !bit(F_nodeConfig_opt[cfgOf(r)], 0x0010) && !bit(F_nodeConfig_opt[cfgOf(r)], 0x0020)
+//@ let L := ulen(r)
+//@ let fifo := F_nodeConfig_ord[cfgOf(r)]
+//@ ensures[C01:Back.found] r != nil && ok ==> exists k :: 1 <= k && k <= L && slice == slot(r, k) && slice != nil && (forall m :: 1 <= m && m <= L && ite(fifo, m > k, m < k) ==> slot(r, m) == nil)
+//@ ensures[C01:Back.none] r != nil && !ok ==> forall m :: 1 <= m && m <= L ==> slot(r, m) == nil
+//@ ensures[C17:Back.nil] r == nil ==> slice == nil && !ok
+//@ modifies nothing
+//@ loop 1 invariant 0 <= i && i <= L && !ok && (forall m :: 1 <= m && m <= i ==> slot(r, m) == nil)
+//@ loop 2 invariant 0 <= i && i <= L && !ok && (forall m :: i < m && m <= L ==> slot(r, m) == nil)
+
+// ---------------------------------------------------------------------
+// capacity (C03)
+
+//@ func (Stack).Cap
+//@ tags C03
+//@ safety C08,C17
+//@ requires r == nil || wf(r)
+//@ let cp := F_nodeConfig_cap[cfgOf(r)]
+//@ ensures[C03:Cap] r != nil ==> c == ite(cp > 0, cp - 1, -1)
+//@ ensures[C17:Cap.nil] r == nil ==> c == 0
+//@ modifies nothing
+
+//@ func (Stack).Avail
+//@ tags C03
+//@ safety C08,C17
+//@ requires r == nil || wf(r)
+//@ let cp := F_nodeConfig_cap[cfgOf(r)]
+//@ ensures[C03:Avail] r != nil ==> avail == ite(cp > 0, (cp - 1) - ulen(r), -1)
+//@ ensures[C03:Avail.nonneg] r != nil && cp > 0 ==> avail >= 0
+//@ ensures[C17:Avail.nil] r == nil ==> avail == 0
+//@ modifies nothing
+
+//@ func (Stack).IsFull
+//@ tags C03
+//@ safety C08,C17
+//@ requires r == nil || wf(r)
+//@ let cp := F_nodeConfig_cap[cfgOf(r)]
+//@ ensures[C03:IsFull] r != nil ==> full == (cp > 0 && ulen(r) == cp - 1)
+//@ ensures[C17:IsFull.nil] r == nil ==> !full
+//@ modifies nothing
